@@ -200,8 +200,13 @@ CLAIMS = {
   "oracle 'never panic'. DYNAMIC layout (Props/C18dyn.lean): the translated check_asserts list never panics for any u64 parameters and any trace "
   "length — every floor_div divisor is known non-zero where it is reached (reflective checker guardsOK proved sound, kernel-evaluated on the "
   "regenerated list) — and validate_public_input never panics; the shipped dynamic proof's mutants (incl. all 340 parameters at extreme values) "
-  "and adversarial parameter vectors go through real code and model.",
-  "Dynamic layout: the headline 'only field_div by zero' theorem is proved for the six static layouts; for the dynamic one the panic-freedom of validation is proved and the evaluators' index bounds (column indices are dynamic parameters bounded by the assertion list) are exercised, not proved. Stack exhaustion of the recursive Merkle walk and allocator aborts are runtime behaviour (an abort is recorded as a panic by the harness).",
+  "and adversarial parameter vectors go through real code and model. Props/C18dynPipeline.lean: verify_panic_only_division_by_zero_dynamic — for the "
+  "dynamic layout too, the ONLY panic of verify is the field division by zero inside the autogenerated code: the DEEP evaluator's 943 column reads "
+  "are indexed by dynamic parameters, each bounded by an UNGUARDED assertion of the translated list (reflective checker dynBoundsOK, proved sound, "
+  "kernel-evaluated on the regenerated programs + list), conditional on validate_public_input having accepted the same public input — which is "
+  "how the pipeline calls it (CallbacksOKAt, verify_panic_sites_at). Deep-reaching zero-trace forgeries with edited column / offset parameters "
+  "exercise exactly that path on the real code.",
+  "The dynamic headline theorem assumes the Rust type facts (340 parameters, each a u64) and is a RELEASE-profile statement: floor_div by zero returns 0 in lambdaworks release builds (modelled so), a debug_assert would fire in a debug build. Stack exhaustion of the recursive Merkle walk and allocator aborts are runtime behaviour (an abort is recorded as a panic by the harness).",
   "Lean 4 machine-checked proof over model + translated programs + malformed-input sweep", "7/C18"),
 
  'C02': ("proof",
@@ -228,13 +233,15 @@ CLAIMS = {
   "the whole load; Data-then-Hash concatenation equals stream order when no Hash precedes a Data line; segments are the input entries "
   "permuted into builtin order (unknown name => error); the 340 Stone dynamic-parameter keys, sorted, are exactly the verifier struct's field "
   "order translated from dynamic.rs; difficulty <= 255 and nonce < 2^64 or error; config derivation from step list / n_steps / blow-up; the "
-  "loader is total and all-or-nothing. Tie: the REAL proof_parser + REAL cli/src/transform.rs (compiled from /repo) vs the loader, token for "
+  "loader is total and all-or-nothing; the prover messages TILE the proof (prover_messages_tile, tiles_step: every P->V[a:b] range starts where the "
+  "previous one ended, 32 bytes per value; duplicated_message_fails) and there is exactly one commitment per inner FRI layer, numbered in order "
+  "(fri_commitments_count). Tie: the REAL proof_parser + REAL cli/src/transform.rs (compiled from /repo) vs the loader, token for "
   "token, on all 25 shipped files (identical) and on edited copies (digit changes, swapped / removed / duplicated lines, Hash before Data, "
   "difficulty 255/256/286, nonce 0 / 2^64, unknown / missing segments, bad hex, n_steps, step lists, dynamic-parameter counts): the loader is "
   "the specification; the real code must never panic, must reject the truncating / malformed classes, and must agree with the loader wherever "
-  "both succeed. Seven parser/CLI defects were repaired (fix: commits); the remaining leniencies of the regex design are KNOWN FINDINGS.",
-  "Known findings (printed, exit 0): garbled / removed annotation lines are silently skipped; duplicate or mis-indexed commitment lines accepted; "
-  "a Hash line preceding Data lines is reordered. Values >= P are reduced silently; continuous page headers are dropped by the CLI conversion (observations).",
+  "both succeed. Eight parser/CLI defects were repaired (fix: commits) — the last one (99103ae) removed the five leniencies of the regex design first "
+  "recorded as known findings (garbled / removed / duplicated / reordered lines, unknown paths), using the tiling of the byte ranges; there are no known findings left.",
+  "Values >= P are reduced silently; continuous page headers are dropped by the CLI conversion (observations, not in the property). The regex engine and serde are exercised, not modelled.",
   "Lean 4 machine-checked proof over an independent loader + differential test against the real parser and CLI conversion", "7/C19"),
 }
 
